@@ -50,3 +50,21 @@ Theorem C11_struct_instance :
   snd (fold_value (TStruct ex_fs) (GStruct ex_vs)) = None.
 Proof. pose proof C11_struct_example as (A & B & C & _). rewrite C. auto. Qed.
 Print Assumptions C11_struct_instance.
+
+(* Nested structs: structs in structs, behind pointers, in slices and in string-keyed maps, to
+   any depth; inlined (squash) structs to any depth; names, "-", omit, omitempty (also on
+   struct / pointer / slice / map fields) and unexported fields ([nest]; member names distinct,
+   checkable by computation).  For every well-typed value of such a type that Fold accepts,
+   unfolding its events into a zero target completes with a value deep_eq to the original under
+   the documented view, namely [nv2 T v].
+   STILL MISSING: interface{}-typed fields and elements, inlined pointers / maps / interfaces
+   (which Unfold refuses), arrays, defined struct types; the three codec routes as one
+   statement. *)
+From SF Require Gotype.UnfoldStructProofs.
+Theorem C11_direct_nested_partial : forall T v evs,
+  SF.Gotype.UnfoldStructProofs.nest T = true -> SF.Gotype.UnfoldStructProofs.wt2 T v = true ->
+  fold_value T v = (evs, None) ->
+  exists v', unfold_value T (zero_of T) evs = UDone v' /\
+             forall F, (ftsize T < F)%nat -> deep_eq F T (omit_view F T v) v' = true.
+Proof. exact SF.Gotype.UnfoldStructProofs.C11_direct_nested_partial. Qed.
+Print Assumptions C11_direct_nested_partial.
